@@ -8,6 +8,7 @@ import (
 	"github.com/gr33nbl00d/caddy-revocation-validator/core"
 	"github.com/gr33nbl00d/caddy-revocation-validator/core/hashing"
 	"github.com/gr33nbl00d/caddy-revocation-validator/core/utils"
+	"github.com/gr33nbl00d/caddy-revocation-validator/core/verifhook"
 	"github.com/gr33nbl00d/caddy-revocation-validator/crl/crlreader"
 	"github.com/syndtr/goleveldb/leveldb"
 	"go.uber.org/zap"
@@ -169,33 +170,40 @@ func (S *LevelDbStore) Update(store CRLStore) error {
 	if ok == false {
 		return errors.New("invalid update store type")
 	}
+	verifhook.Hit("leveldb.update.start")
 	err := S.closeDbWithRetries(S.Db)
 	if err != nil {
 		return err
 	}
+	verifhook.Hit("leveldb.update.old-closed")
 	err = S.closeDbWithRetries(levelDbNew.Db)
 	if err != nil {
 		return err
 	}
+	verifhook.Hit("leveldb.update.new-closed")
 	levelDBPath := filepath.Join(S.BasePath, S.Identifier)
 	levelDBPathTemp, err := S.renameWithRetriesToTempDir(S.LevelDBPath)
 	if err != nil {
 		return err
 	}
+	verifhook.Hit("leveldb.update.old-moved")
 	err = S.renameWithRetries(levelDbNew.LevelDBPath, levelDBPath)
 	if err != nil {
 		return err
 	}
+	verifhook.Hit("leveldb.update.new-moved")
 
 	err = S.removeWithRetries(levelDBPathTemp)
 	if err != nil {
 		S.Logger.Warn("failed to delete temporary path, will be deleted on next restart", zap.String("path", levelDBPathTemp))
 	}
+	verifhook.Hit("leveldb.update.old-removed")
 	db, err := openDbWithRetries(levelDBPath, S.Logger)
 	if err != nil {
 		return err
 	}
 	S.Db = db
+	verifhook.Hit("leveldb.update.reopened")
 	return nil
 }
 
